@@ -1289,3 +1289,65 @@ def slice_advance_shape(b):
                 if g['op'] == 'Le' and g['l'].atoms == na and 'len' in g['r'].flags and all(all_paths_err(b, o_) for o_ in g['other']):
                     return 'cmp'
     return None
+
+
+SPLIT_AT = ['slice::<impl [T]>::split_at', 'slice::<impl [T]>::split_at_checked']
+
+
+def split_is_bounded(body, bb, t, n_params=None, need_slice_field=False):
+    """the split at block bb cannot go past the end: `split_at(n)` dominated by n <= len (the other edge returns Err on
+    every path), or `split_at_checked(n)` whose `None` edge returns Err on every path"""
+    no = origin(body, t['args'][1])
+    if n_params is not None and no.params() != n_params:
+        return False
+    if cname(t).endswith('split_at_checked') or (t.get('callee') or '').endswith('split_at_checked'):
+        dl = (t.get('dest') or {}).get('l')
+        for d in body.live_blocks():
+            if body.is_cleanup(d) or body.term(d).get('k') != 'switch':
+                continue
+            si = body.switch_info(d)
+            if si.get('kind') != 'enum' or not (si.get('adt') or '').endswith('option::Option'):
+                continue
+            so = origin(body, si['place'])
+            if not any(c is t for c in so.calls):
+                continue
+            tgt = si['variants'].get('None', si.get('otherwise'))
+            if tgt is not None and all_paths_err(body, tgt):
+                return True
+        return False
+    for g in cmp_guards(body, bb):
+        if g['op'] == 'Le' and g['l'].params() == no.params() and 'len' in g['r'].flags and (not need_slice_field or 'slice' in g['r'].fields):
+            if all(all_paths_err(body, s_) for s_ in g['other']):
+                return True
+        if g['op'] == 'Ge' and g['r'].params() == no.params() and 'len' in g['l'].flags and (not need_slice_field or 'slice' in g['l'].fields):
+            if all(all_paths_err(body, s_) for s_ in g['other']):
+                return True
+    return False
+
+
+def index_path_from_call(body, op, t, depth=8):
+    """tuple/field index path [i, j, ..] by which operand `op` is taken out of the result of call `t` (following plain
+    copies/moves and reborrows), or None: `let Some((header, datum)) = s.split_first_chunk::<10>()` gives datum the path
+    [0, 1] (payload of Some, second tuple element)"""
+    dl = (t.get('dest') or {}).get('l')
+    p = op_place(op) if isinstance(op, dict) and ('copy' in op or 'move' in op) else op
+    path = []
+    while p is not None and depth > 0:
+        depth -= 1
+        idx = [e['i'] for e in p.get('p', []) if isinstance(e, dict) and 'i' in e and 'f' not in e] + \
+              [e['i'] for e in p.get('p', []) if isinstance(e, dict) and 'f' in e and isinstance(e.get('i'), int)]
+        idx = [e.get('i') for e in p.get('p', []) if isinstance(e, dict) and isinstance(e.get('i'), int)]
+        path = idx + path
+        if p['l'] == dl:
+            return path
+        defs = [d for d in body.defs().get(p['l'], []) if d[0] in body.live_blocks() and not body.is_cleanup(d[0]) and not d[4].get('p')]
+        if len(defs) != 1 or defs[0][2] != 'assign':
+            return None
+        rv = defs[0][3]
+        if rv['k'] == 'use':
+            p = op_place(rv['op'])
+        elif rv['k'] in ('ref', 'rawptr'):
+            p = rv['place']
+        else:
+            return None
+    return None
